@@ -260,7 +260,12 @@ def run(ctx: Ctx):
 
     # ------------------------------------------------------------- canonical order
     names = ["SUMMARY", "DTSTART", "DTEND", "UID", "ATTENDEE", "X-B", "A", "RRULE"]
-    for cls in (Event, Calendar, Timezone, Component, vRecur):
+    # user subclasses with their own declared order, sorted after (and before) their parents were sorted in this process
+    Meeting = type("Meeting", (Event,), {"canonical_order": ("X-B", "SUMMARY", "A")})
+    Plain = type("Plain", (CaselessDict,), {"canonical_order": ("RRULE", "A")})
+    Inherits = type("Inherits", (Event,), {})
+    Deep = type("Deep", (Meeting,), {"canonical_order": ("UID",)})
+    for cls in (Event, Meeting, Calendar, Timezone, Component, Plain, vRecur, Inherits, Deep, Meeting, Event):
         order = list(cls.canonical_order or ())
         nm = names if cls is not vRecur else ["FREQ", "COUNT", "BYDAY", "RSCALE", "X-A", "A", "WKST", "UNTIL"]
         if cls is Calendar:
